@@ -4,6 +4,7 @@ import Driver.TC
 import Driver.Spec
 import Driver.Interp
 import Driver.Disp
+import Driver.TS
 
 open Osu.Driver
 
@@ -20,6 +21,7 @@ def handle (st : DState) (line : String) : DState × String :=
   | "spec" :: rest => (st, Spec.step rest)
   | "interp" :: rest => (st, Interp.step rest)
   | "disp" :: rest => (st, Disp.step rest)
+  | "ts" :: rest => (st, TS.step rest)
   | _ => (st, "bad-op")
 
 partial def loop (h : IO.FS.Stream) (out : IO.FS.Stream) (st : DState) : IO Unit := do
